@@ -1306,7 +1306,12 @@ class ComputeGraph(MultiDiGraph):
         expr_args = []
         for arg in expr.args:
             expr_part, args, _, _ = self._expr_to_str(arg, **kwargs)
-            expr_str = expr_str.replace(str(arg), expr_part)
+            arg_str = str(arg)
+            if arg_str not in expr_str and arg_str[:1] == '-' and expr_part[:1] == '-' and arg_str[1:] in expr_str:
+                # sympy prints Add(a, -b) as `a - b`: the negated argument appears without its leading sign
+                expr_str = expr_str.replace(arg_str[1:], expr_part[1:])
+            else:
+                expr_str = expr_str.replace(arg_str, expr_part)
             index_args.extend(args)
             expr_args.append(expr_part)
         var = str(expr_args[0]) if expr.args else ""
